@@ -122,7 +122,10 @@ func (w *fsWalker) call(c *ast.CallExpr, lhs []ast.Expr, deferred bool) {
 		emit(FsCall{Kind: "close", File: file})
 	case name == "io.WriteString" || name == "fmt.Fprint" || name == "fmt.Fprintf" || name == "fmt.Fprintln":
 		if len(c.Args) >= 1 {
-			emit(FsCall{Kind: "write", File: w.fileOf(c.Args[0])})
+			// only writes to a tracked file handle count (a strings.Builder / bytes.Buffer is not a file)
+			if file := w.fileOf(c.Args[0]); file != "?" {
+				emit(FsCall{Kind: "write", File: file})
+			}
 		}
 	case name == "os.Rename" && len(c.Args) == 2:
 		emit(FsCall{Kind: "rename", File: w.fileOf(c.Args[0]), Dst: w.fileOf(c.Args[1])})
